@@ -714,6 +714,17 @@ def _match(t, p, b):
         if len(ti) != len(pi):
             return False
         return all(_match(a, c, b) for a, c in zip(ti, pi))
+    if pk == 'cmp' and t[1] == p[1] and t[1] in ('==', '!='):
+        saved = dict(b)
+        if _match(t[2], p[2], b) and _match(t[3], p[3], b):
+            return True
+        b.clear()
+        b.update(saved)
+        if _match(t[2], p[3], b) and _match(t[3], p[2], b):
+            return True
+        b.clear()
+        b.update(saved)
+        return False
     if pk in ('binop', 'unary', 'cmp'):
         if t[1] != p[1]:
             return False
